@@ -61,6 +61,12 @@ Definition wd_weekday (w : option wdv) : gres Z :=
 Definition wd_n (w : option wdv) : gres (option Z) :=
   match w with Some (_, n) => GOk n | None => GErr end.
 
+(* a datetime.timedelta operand: its (days, seconds, microseconds) attributes *)
+Definition tdv : Type := (Z * Z * Z)%type.
+Definition td_days (t : tdv) : Z := fst (fst t).
+Definition td_seconds (t : tdv) : Z := snd (fst t).
+Definition td_microseconds (t : tdv) : Z := snd t.
+
 (* ---- Python truthiness and value-returning or / and *)
 Definition truth_z (x : Z) : bool := negb (x =? 0).
 Definition truth_oz (a : option Z) : bool := match a with Some v => negb (v =? 0) | None => false end.
